@@ -105,6 +105,45 @@ func c13Modes(src string) (kind, detail string, accepted bool) {
 	return "", "", accepted
 }
 
+// c13Late: a parser built in mode m whose builder is switched to m2 before ParseProgram is called behaves as
+// in mode m (the modes are read at Build time).
+func c13Late(src string) (kind, detail string) {
+	for _, m := range Modes {
+		want := parseMode(src, m)
+		if want.Panic != "" {
+			return "", ""
+		}
+		wd := dumpTree(want.Prog)
+		for _, m2 := range Modes {
+			if m2 == m {
+				continue
+			}
+			pb := newPB(m)
+			var got ParseOut
+			func() {
+				defer func() {
+					if r := recover(); r != nil {
+						got.Panic = panicText(r)
+					}
+				}()
+				p := pb.Build(src)
+				pb.WithTolerantMode(m2.Tolerant)
+				pb.WithSmartSemicolon(m2.Smart)
+				got.Prog, got.Err = p.ParseProgram()
+				got.Errs = p.Errors()
+			}()
+			if got.Panic != "" {
+				return "panic", got.Panic
+			}
+			if dumpTree(got.Prog) != wd || len(got.Errs) != len(want.Errs) {
+				return "mode-read-after-build", fmt.Sprintf("parser built in mode %s, builder switched to %s before ParseProgram: tree %s, %d errors; mode %s gives %s, %d errors",
+					m, m2, ref.XStmts(got.Prog.Statements), len(got.Errs), m, ref.XStmts(want.Prog.Statements), len(want.Errs))
+			}
+		}
+	}
+	return "", ""
+}
+
 // clause B: the second text must be accepted by `mode` without error and have the shape that strict
 // default mode gives to the reference text.
 // c13SameTol applies c13Same in both tolerant mode combinations (tolerant, tolerant+smart; the reference
@@ -144,6 +183,7 @@ func c13Same(src string, mode Mode, refSrc string, refMode Mode) (kind, detail s
 }
 
 func c13Run(c *core.Ctx) {
+	processWarmup()
 	c13Sink = func(st string) {
 		if c.Distinct("mode_product_states", st) {
 			c.Inc("distinct_mode_product_states")
@@ -238,6 +278,13 @@ func c13Run(c *core.Ctx) {
 			kk = 1
 		}
 		def := gen.RenderDefault(toks)
+		// (D) late parse: default layout, all-LF layout without semicolons, last closing brace missing
+		for _, text := range []string{def, gen.Render(toks, func(int) string { return "\n" }, func(int) int { return 1 }), strings.TrimSuffix(def, "}")} {
+			c.Inc("inputs")
+			c.Inc("late_parse_cases")
+			kd, d := c13Late(text)
+			viol("D", kd, d, text, "", len(toks))
+		}
 		gen.Layouts(toks, kk, gaps, func(text string, devs []gen.Dev) {
 			if c.Tick() {
 				return
@@ -448,6 +495,8 @@ func c13Replay(pl json.RawMessage) (string, []core.Violation) {
 	out := fmt.Sprintf("clause %s source %q reference %q", p.Clause, p.Src, p.Src2)
 	var k, d string
 	switch p.Clause {
+	case "D":
+		k, d = c13Late(p.Src)
 	case "A":
 		k, d, _ = c13Modes(p.Src)
 	case "C":
